@@ -17,11 +17,14 @@ def main():
     args = [a for a in sys.argv[1:] if not a.startswith("--")]
     reverse = "--reverse" in sys.argv
     patch, tier, checks = os.path.abspath(args[0]), args[1], args[2:]
-    st = subprocess.run(["git", "-C", "/repo", "status", "--porcelain", "--untracked-files=no"], capture_output=True, text=True).stdout
+    # EVAL_REPO=<scratch worktree of /repo>: evaluate there (several seeds in parallel) instead of in /repo itself
+    REPO = os.environ.get("EVAL_REPO", "/repo")
+    tag = re.sub(r"\W", "_", REPO)
+    st = subprocess.run(["git", "-C", REPO, "status", "--porcelain", "--untracked-files=no"], capture_output=True, text=True).stdout
     if st.strip():
         print("refusing: /repo has uncommitted changes:\n" + st)
         return 2
-    cmd = ["git", "-C", "/repo", "apply"] + (["-R"] if reverse else []) + [patch]
+    cmd = ["git", "-C", REPO, "apply"] + (["-R"] if reverse else []) + [patch]
     r = subprocess.run(cmd, capture_output=True, text=True)
     if r.returncode != 0:
         print("patch does not apply: " + r.stderr[:500])
@@ -30,8 +33,8 @@ def main():
     try:
         for c in checks:
             t = time.time()
-            env = dict(os.environ, DRFVERIF_EVIDENCE_DIR="/dev/shm/drfverif-mutant-evidence",
-                       DRFVERIF_REPLAY_DIR="/dev/shm/drfverif-mutant-replays")
+            env = dict(os.environ, DRFVERIF_REPO=REPO, DRFVERIF_EVIDENCE_DIR="/dev/shm/drfverif-mutant-evidence" + tag,
+                       DRFVERIF_REPLAY_DIR="/dev/shm/drfverif-mutant-replays" + tag)
             p = subprocess.run([os.path.join(VERIF, "check"), c, tier], capture_output=True, text=True, cwd=VERIF, env=env)
             viol = [ln for ln in p.stdout.splitlines() if ln.startswith("VIOLATION")]
             keys = [ln.strip()[:260] for ln in p.stdout.splitlines() if ln.startswith("  key=")]
@@ -40,8 +43,8 @@ def main():
             if p.returncode == 1 and os.environ.get("EVAL_STOP_AT_FIRST") == "1":
                 break  # the remaining checks were not run (recorded as such by their absence)
     finally:
-        subprocess.run(["git", "-C", "/repo", "checkout", "--", "."], check=True)
-        subprocess.run(["rm", "-rf", "/dev/shm/drfverif-mutant-evidence", "/dev/shm/drfverif-mutant-replays"])
+        subprocess.run(["git", "-C", REPO, "checkout", "--", "."], check=True)
+        subprocess.run(["rm", "-rf", "/dev/shm/drfverif-mutant-evidence" + tag, "/dev/shm/drfverif-mutant-replays" + tag])
     print(json.dumps(out, indent=1))
     caught = [c for c, v in out.items() if v["rc"] == 1]
     print("CAUGHT-BY: %s" % (",".join(caught) or "NONE"))
